@@ -31,6 +31,7 @@ Expect(c) ==
   IN [st |-> st, k |-> k, n |-> n, total |-> Total(st),
       min |-> [v \in 1 .. n |-> MinSeats(st, k, v - 1)],
       bnd |-> [v \in 1 .. n |-> OnBoundary(st, k, v - 1)],
+      pcap |-> [v \in 1 .. n |-> MinSeats(st, k, v - 1) + 2],
       zero |-> [v \in 1 .. n |-> st[v] = 0],
       mustConstruct |-> MustConstruct("any", ZeroIds(st)),
       decay |-> [i \in DOMAIN DecayParams |->
@@ -41,7 +42,8 @@ Expect(c) ==
 
 \* which guarantees apply to which strategy (read by the harness)
 ASSUME PrintT(<<"TABLE", ToJson([all |-> AllStrategies, stakeProportional |-> StakeProportional,
-                                 faitAccompli |-> FaitAccompli, decaying |-> Decaying])>>)
+                                 faitAccompli |-> FaitAccompli, decaying |-> Decaying,
+                                 fa1Exact |-> FaitAccompli1, partitionFallback |-> PartitionFallback])>>)
 
 Init == /\ cs \in Cases
         /\ PrintT(<<"CASE", ToJson(Expect(cs))>>)
@@ -68,7 +70,8 @@ Replace(c, j, w) == [c EXCEPT ![j] = w]
 Mutations(c, st) == {Replace(c, j, w) : j \in DOMAIN c, w \in Ids(st)}
 TestCommittees == LET a == CanonFA(cs.st, cs.k)
                       b == CanonRR(cs.st, cs.k)
-                  IN {a, b} \cup Mutations(a, cs.st) \cup Mutations(b, cs.st)
+                      d == CanonFA1(cs.st, cs.k)
+                  IN {a, b, d} \cup Mutations(a, cs.st) \cup Mutations(b, cs.st) \cup Mutations(d, cs.st)
 
 \* the boundary / interior split is exactly FaSeats; Owed() loses nothing
 FaSplit ==
@@ -81,6 +84,31 @@ FaDiscriminates ==
   LET c == CanonFA(cs.st, cs.k) IN
   \A j \in DOMAIN c, w \in Ids(cs.st) :
     (w # c[j] /\ Seats(c, c[j]) = MinSeats(cs.st, cs.k, c[j])) => ~FaSeats(Replace(c, j, w), cs.st, cs.k)
+
+\* FA1: a committee satisfying all FA1 guarantees together exists (enough validators with a
+\* non-zero residual exist to take the k' fallback seats, one each)
+CanonFA1OK ==
+  LET c == CanonFA1(cs.st, cs.k) IN
+  /\ WellFormed(c, cs.k, cs.st)
+  /\ FaSeats(c, cs.st, cs.k)
+  /\ FaExactAll(c, cs.st, cs.k)
+  /\ FaExactWhenNoResidual(c, cs.st, cs.k)
+  /\ FaPartitionCap(c, cs.st, cs.k)
+
+\* every residual zero => the guaranteed seats fill the committee, the fallback draws nothing
+AllZeroNoFallback == AllResidualsZero(cs.st, cs.k) <=> (SumMin(cs.st, cs.k) = cs.k)
+
+\* the trace form (Owed only) together with NoZero is exactly the definition
+FaExactSplit ==
+  \A c \in TestCommittees :
+    FaExactAll(c, cs.st, cs.k) <=>
+      (FaExactWhenNoResidual(c, cs.st, cs.k) /\ \A v \in ZeroIds(cs.st) : Seats(c, v) = 0)
+
+\* an extra seat for a validator without residual is noticed
+FaExactDiscriminates ==
+  LET c == CanonFA1(cs.st, cs.k) IN
+  \A j \in DOMAIN c, w \in Ids(cs.st) :
+    (w # c[j] /\ OnBoundary(cs.st, cs.k, w)) => ~FaExactAll(Replace(c, j, w), cs.st, cs.k)
 
 \* a zero-weight seat is noticed
 NoZeroDiscriminates ==
@@ -106,5 +134,7 @@ DecayInfeasibleNone ==
 ASSUME /\ CapSeats(1, 1) = 1 /\ CapSeats(2, 1) = 2 /\ CapSeats(5, 2) = 3 /\ CapSeats(7, 2) = 4
        /\ Determinism({<<1, 2>>}) /\ Determinism({}) /\ ~Determinism({<<1, 2>>, <<2, 1>>})
        /\ MinSeats(<<1, 48>>, 49, 0) = 1 /\ OnBoundary(<<1, 48>>, 49, 0)
+       /\ FaExactWhenNoResidual(<<0, 1, 2>>, <<2, 1, 1>>, 2) /\ ~FaExactWhenNoResidual(<<0, 0>>, <<2, 1, 1>>, 2)
+       /\ FaPartitionCap(<<0, 0, 0, 1>>, <<2, 1, 1>>, 4) /\ ~FaPartitionCap(<<1, 1, 1, 1>>, <<2, 1, 1>>, 4)
        /\ MinSeats(<<1, 49>>, 49, 0) = 0 /\ ~OnBoundary(<<1, 49>>, 49, 0)
 =============================================================================
